@@ -196,8 +196,9 @@ PROP = Prop(
           "(eq_strategy replaces). TLC proves Sound and Complete for the design at every fold step, ShippedUnsoundOnlyByEq, and "
           "computes satisfiability, for every chain of <= MaxChain checks (2 quick, 3 thorough) over 15 numeric checks x "
           "nullable x unique x size in {1,3}; string chains (11 checks, length <= 2) are enumerated too. Each schema is built "
-          "as SeriesSchema, Column in a DataFrameSchema with a unique Index, Index, and regex column (n_regex_columns=2), "
-          "int64/float64; examples are drawn from the real schema.strategy(size=n) with hypothesis (seeded, health checks off, "
+          "as SeriesSchema, Column in a DataFrameSchema with a unique Index, Index, regex column (n_regex_columns=2, every generated "
+          "column judged), Column with its last check declared at dataframe level, SeriesSchema with an index schema, Column under a "
+          "jointly unique MultiIndex, nullable SeriesSchema with a whole-series custom check; int64/float64/datetime64/timedelta64; examples are drawn from the real schema.strategy(size=n) with hypothesis (seeded, health checks off, "
           "wall-clock cap). Every numeric draw is sent back to TLC as ranks and judged against the meaning of the schema "
           "(checks, nullability, uniqueness, size); string draws and every draw additionally by the schema's own validate. A "
           "schema that yields no draw (Unsatisfiable, timeout, hypothesis error) is counted, not a violation. Distinct = "
